@@ -67,7 +67,7 @@ def cfg_text(spec, consts, invariants=(), properties=(), view=None, postconditio
 def consts(pid, **kw):
     c = dict(MaxH=1, OpKinds=set(), FilePaths={"/a", "/b"}, DirPaths=set(), RenFiles=set(), RenDirs=set(),
              OpenModes={"rwc"}, Bytes={1}, WriteLens={1}, Offsets={0}, ReadLens={2}, SetLens={0, 2},
-             SeekWh=set(), SeekOffs=set(), SeekNeg=set(), ViewSet={"/", "/a", "/b"}, Judge=JUDGE[pid],
+             SeekWh=set(), SeekOffs=set(), SeekNeg=set(), ViewSet={"/", "/a", "/b"}, Judge=JUDGE[pid], SyncKnob=False,
              MaxLen=4, MaxCrash=0)
     c.update(kw)
     return c
@@ -119,6 +119,9 @@ def mc_configs(pid, tier):
         ("mc_crash_dirs", consts(pid, OpKinds={"write_file", "sync_dir", "rename", "remove_file", "create_dir", "remove_dir", "crash"},
                                  FilePaths={"/a", "/d/a"}, DirPaths={"/d"}, RenFiles={"/a", "/d/a"},
                                  ViewSet={"/", "/a", "/d", "/d/a"}, MaxLen=5 if q else 6, MaxCrash=2)),
+        ("mc_crash_bgsync", consts(pid, SyncKnob=True, OpKinds={"write_file", "open", "write", "set_len", "sync_all", "sync_dir",
+                                                                 "rename", "remove_file", "crash"},
+                                   RenFiles={"/a", "/b"}, OpenModes={"rw"}, MaxLen=4 if q else 5, MaxCrash=1)),
     ]
     return cfgs
 
@@ -132,12 +135,12 @@ def gen_configs(pid, tier):
             ("gen_data", consts(pid, OpKinds=DATA_OPS, DirPaths={"/d"}, RenFiles={"/a", "/b"}, ViewSet={"/", "/a", "/b", "/d"},
                                 MaxLen=5 if q else 6), "edges", True, [("std", 1), ("tokio", 1)]),
             # directories: create_dir(_all), remove_dir(_all), read_dir, renames of directories and across directories
-            ("gen_dirs", consts(pid, OpKinds=DIR_OPS | {"metadata", "exists", "read_file"}, MaxLen=4 if q else 5, **DIR_PATHS),
+            ("gen_dirs", consts(pid, OpKinds=DIR_OPS | {"metadata", "exists", "read_file"}, MaxLen=4 if q else 6, **DIR_PATHS),
              "edges", True, [("std", 1), ("mix", 2)]),
             # every valid combination of create / create_new / truncate / append on existing and missing files
             ("gen_modes", consts(pid, OpKinds={"open", "close", "write_file", "read", "write", "len", "remove_file"},
                                  FilePaths={"/a", "/d/a"}, DirPaths={"/d"}, OpenModes=ALL_MODES, Bytes={1, 2}, ReadLens={3},
-                                 ViewSet={"/", "/a", "/d", "/d/a"}, MaxLen=4), "edges", True, [("mix", 1)]),
+                                 ViewSet={"/", "/a", "/d", "/d/a"}, MaxLen=4 if q else 5), "edges", True, [("mix", 1)]),
             # two handles, cursor read / write / seek, append, write_at / read_at with holes and overlaps, set_len
             ("gen_cursor", consts(pid, MaxH=2, OpKinds={"open", "write", "write_at", "read", "read_at", "seek", "set_len", "len"},
                                   FilePaths={"/a"}, OpenModes={"rwc", "ra"}, Bytes={1, 2}, Offsets={0, 2}, ReadLens={1, 3},
@@ -148,6 +151,13 @@ def gen_configs(pid, tier):
                                FilePaths={"/a", "/b"}, RenFiles={"/a", "/b"}, OpenModes={"rwc"}, SetLens={0, 2},
                                MaxLen=4 if q else 5), "edges", False, [("mix", 1)]),
         ]
+        if not q:
+            # wider: files in the root and in a directory, data and namespace calls mixed
+            cfgs.append(("gen_wide", consts(pid, OpKinds={"open", "close", "write", "set_len", "sync_all", "sync_dir", "rename", "remove_file",
+                                                          "create_dir", "remove_dir", "write_file"},
+                                            FilePaths={"/a", "/b", "/d/a"}, DirPaths={"/d"}, RenFiles={"/a", "/b", "/d/a"},
+                                            OpenModes={"rwc", "wct"}, ViewSet={"/", "/a", "/b", "/d", "/d/a"}, MaxLen=5),
+                         "edges", True, [("mix", 1)]))
         return cfgs
     cfgs = [
         # crash after every prefix; data syncs vs directory syncs vs renames
@@ -157,6 +167,10 @@ def gen_configs(pid, tier):
         ("gen_crash_data", consts(pid, OpKinds={"open", "write", "set_len", "sync_all", "sync_data", "sync_dir", "remove_file", "crash"},
                                   FilePaths={"/a"}, OpenModes={"rwc", "wct", "ac"}, SetLens={0, 2}, ViewSet={"/", "/a"},
                                   MaxLen=6 if q else 7, MaxCrash=2), "edges", True, [("mix", 1)]),
+        # sync_probability > 0: every write / set_len with and without a background sync of that file
+        ("gen_crash_bgsync", consts(pid, SyncKnob=True, OpKinds={"open", "write", "set_len", "sync_all", "sync_dir", "rename", "remove_file", "crash"},
+                                    FilePaths={"/a", "/b"}, RenFiles={"/a", "/b"}, OpenModes={"rwc"}, SetLens={0, 2},
+                                    MaxLen=5 if q else 6, MaxCrash=1), "edges", True, [("std", 1)]),
         # directories: durable own creation, entries synced per directory, renames across directories,
         # crash - continue - crash
         ("gen_crash_dirs", consts(pid, OpKinds={"write_file", "sync_dir", "rename", "remove_file", "create_dir", "remove_dir", "crash"},
@@ -173,8 +187,9 @@ def random_configs(pid, tier, seed):
         cfgs = [dict(runs=120 if q else 800, len=30, rich=1, dir_rename=1, crash=0, fe="mix", maxh=2),
                 dict(runs=60 if q else 400, len=40, rich=0, dir_rename=0, crash=0, fe="std", maxh=2)]
     else:
-        cfgs = [dict(runs=120 if q else 800, len=30, rich=1, dir_rename=0, crash=8, fe="mix", maxh=2),
-                dict(runs=60 if q else 400, len=40, rich=0, dir_rename=0, crash=12, fe="tokio", maxh=2)]
+        cfgs = [dict(runs=100 if q else 800, len=30, rich=1, dir_rename=0, crash=8, fe="mix", maxh=2, knob=0),
+                dict(runs=50 if q else 400, len=40, rich=0, dir_rename=0, crash=12, fe="tokio", maxh=2, knob=0),
+                dict(runs=60 if q else 600, len=30, rich=1, dir_rename=0, crash=10, fe="std", maxh=2, knob=1)]
     return [dict(c, seed=seed * 131 + i) for i, c in enumerate(cfgs)]
 
 
@@ -212,13 +227,15 @@ class Families:
         for d in got if count else []:
             h = self.hits.setdefault(d, {"n": 0, "witness": witness})
             h["n"] += 1
-            if witness and (not h["witness"] or len(witness) < len(h["witness"])):
+            if witness and (not h["witness"] or (witness.count(";"), len(witness)) < (h["witness"].count(";"), len(h["witness"]))):
                 h["witness"] = witness
+        for d in got if not count else []:
+            self.hits.setdefault(d, {"n": 0, "witness": witness})
         return bool(got)
 
     def report(self):
         for d, h in self.hits.items():
-            self.ck.known(d, f"family={d} {self.listed[d]} [{h['n']} observations; shortest: {h['witness']}]")
+            self.ck.known(d, f"family={d} {self.listed[d]} [{h['n']} observations; e.g. {h['witness']}]")
 
 
 def opstr(o):
@@ -233,26 +250,26 @@ def behstr(beh):
 # ---------------------------------------------------------------------------
 # TLC trace validation
 
-def trace_consts(pid, maxh, ps):
-    return consts(pid, MaxH=maxh, FilePaths=set(), OpenModes=set(), Bytes=set(), WriteLens=set(), Offsets=set(),
+def trace_consts(pid, maxh, ps, knob=False):
+    return consts(pid, MaxH=maxh, SyncKnob=knob, FilePaths=set(), OpenModes=set(), Bytes=set(), WriteLens=set(), Offsets=set(),
                   ReadLens=set(), SetLens=set(), ViewSet=set(ps), MaxLen=0)
 
 
-def validate_trace(pid, path, maxh, ps, tag, impl=True):
+def validate_trace(pid, path, maxh, ps, tag, impl=True, knob=False):
     """Returns (rejects {(run,i): clause}, lost set, kinds Counter, devs {(run,i): [names]}, drifts {(run,i): what}, prop result, impl result)."""
     env = {"TRACE": os.path.abspath(path)}
-    pcfg = cfg_text("TSpec", dict(MaxH=maxh, Judge=JUDGE[pid]), postcondition="Accepted")
+    pcfg = cfg_text("TSpec", dict(MaxH=maxh, Judge=JUDGE[pid], SyncKnob=knob), postcondition="Accepted")
     pr = vlib.run_tlc(SUB, "FsRefTrace", pcfg, tag + "_prop", workers=1, env=env, dfs=True, heap="4g", timeout=1200)
     if pr.error or pr.timed_out or pr.unmatched:
         raise MachineryError(f"trace validation (FsRefTrace) failed on {path}: {pr.error or pr.unmatched or 'timeout'}")
     rejects = {(int(a), int(b)): c for a, b, c in re.findall(r'^<<"REJECT", (\d+), (\d+), "([\w.]+)"', pr.stdout, re.M)}
-    lost = {(int(a), int(b)) for a, b in re.findall(r'^<<"LOST", (\d+), (\d+)>>', pr.stdout, re.M)}
+    lost = {(int(a), int(b)) for a, b in re.findall(r'^<<"(?:LOST|UNSPEC)", (\d+), (\d+)>>', pr.stdout, re.M)}
     kinds = collections.Counter()
     for _r, _i, k, obs, exp in re.findall(r'^<<"KIND", (\d+), (\d+), "(\w+)", "(\w*)", "(\w*)">>', pr.stdout, re.M):
         kinds[f"{k}: kind {obs} where std returns {exp}"] += 1
     devs, drifts, ir = {}, {}, None
     if impl:
-        icfg = cfg_text("TSpec", trace_consts(pid, maxh, ps), postcondition="Accepted")
+        icfg = cfg_text("TSpec", trace_consts(pid, maxh, ps, knob), postcondition="Accepted")
         ir = vlib.run_tlc(SUB, "FsImplTrace", icfg, tag + "_impl", workers=1, env=env, dfs=True, heap="4g", timeout=1200)
         if ir.error or ir.timed_out or ir.unmatched:
             raise MachineryError(f"trace validation (FsImplTrace) failed on {path}: {ir.error or ir.unmatched or 'timeout'}")
@@ -303,15 +320,39 @@ def run_gen(ck, fam, pid, name, c, emit, view, fes, w, only_line=None):
     with open(bpath, "w") as f:
         f.write("\n".join(behs) + "\n")
     log(f"[{pid}] {name}: {r.distinct} distinct states, {len(behs)} behaviours generated by TLC in {r.wall:.0f}s")
-    for fe, hosts in fes:
-        replay_behaviours(ck, fam, pid, f"{name}_{fe}{hosts}", c, bpath, len(behs), fe, hosts, w)
+    for n, (fe, hosts) in enumerate(fes):
+        # a sample of every known-family combination is judged by TLC for the first front-end; behaviours that
+        # no listed family explains are judged by TLC always
+        replay_behaviours(ck, fam, pid, f"{name}_{fe}{hosts}", c, bpath, len(behs), fe, hosts, w, cap_known=6 if n == 0 else 0)
+    if pid == "C07":
+        sim_replay(ck, pid, name, c, bpath, w)
 
 
-def replay_behaviours(ck, fam, pid, name, c, bpath, nbeh, fe, hosts, w):
+def sim_replay(ck, pid, name, c, bpath, w):
+    """The behaviours that end in a crash, executed by host software inside a running Sim (Sim::crash + Sim::bounce)."""
+    spath = os.path.join(w, f"{name}.sim.json")
+    out = vlib.run_driver("fs", ["simreplay", f"in={bpath}", f"out={spath}", f"maxh={c['MaxH']}", "ps=" + ",".join(sorted(c["ViewSet"])),
+                                 "fe=mix", "every=1" if ck.tier == "thorough" else "every=2"])
+    s = json.load(open(spath))
+    log(f"[{pid}] {name}_sim: {out.strip()}")
+    ck.traces += s["behaviours"]
+    ck.evaluations += s["behaviours"]
+    ck.nontrivial += s["behaviours"]
+    ck.extra.setdefault("sim_crash_bounce", {})[name] = {"behaviours": s["behaviours"], "crashes": s["crashes"], "as_predicted": s["ok"]}
+    for b in s["bad"][:3]:
+        ck.violation({"kind": "sim", "property": pid, "config": name, "consts": jsonable(c), "behaviour": b.get("behaviour"),
+                      "text": behstr(b["behaviour"]) if "behaviour" in b else "", "what": b.get("what"),
+                      "why": "driven through Sim::crash / Sim::bounce the post-crash image is neither the reference's nor the "
+                             "one the frozen model FsImpl predicts"})
+    ck.violations += max(0, s["bad_count"] - 3)
+
+
+def replay_behaviours(ck, fam, pid, name, c, bpath, nbeh, fe, hosts, w, cap_known=6):
     ps = sorted(c["ViewSet"])
     spath = os.path.join(w, f"{name}.summary.json")
     out = vlib.run_driver("fs", ["replay", f"in={bpath}", f"out={spath}", f"traces={w}", f"name={name}", f"fe={fe}",
-                                 f"hosts={hosts}", f"maxh={c['MaxH']}", "ps=" + ",".join(ps), f"judge={c['Judge']}"])
+                                 f"hosts={hosts}", f"maxh={c['MaxH']}", "ps=" + ",".join(ps), f"judge={c['Judge']}",
+                                 f"cap_known={cap_known}"])
     s = json.load(open(spath))
     log(f"[{pid}] {name}: {out.strip()}")
     ck.traces += s["behaviours"]
@@ -321,7 +362,10 @@ def replay_behaviours(ck, fam, pid, name, c, bpath, nbeh, fe, hosts, w):
         ck.sample({"kind": "TLC behaviour replayed on the real Fs", "config": name,
                    "behaviour": behstr(smp["behaviour"]), "observed_last": smp["observed"]})
     if s["prefix_divergent"]:
-        raise MachineryError(f"{name}: {s['prefix_divergent']} behaviours diverged inside their prefix (generator not prefix closed)")
+        # every prefix of a behaviour is a behaviour of its own: the divergence is judged there
+        log(f"[{pid}] {name}: {s['prefix_divergent']} behaviours already diverged inside their prefix (judged on the prefix itself)")
+        if not (s["unexplained"] or s["known"] or s["drift_count"]):
+            raise MachineryError(f"{name}: behaviours diverged inside their prefix but no behaviour diverged at its last call")
     # the code left the ImplSpec but the reference accepts: drift, no alarm
     if s["drift_count"]:
         ck.impl_drift += s["drift_count"]
@@ -333,7 +377,7 @@ def replay_behaviours(ck, fam, pid, name, c, bpath, nbeh, fe, hosts, w):
         judge_kind(ck, fam, pid, name, km["what"], km["count"], km["predicted_by_impl"], c, fe, hosts)
     # behaviours on which the code left the reference: TLC gives the verdict on the recorded traces
     if s["div_runs"]:
-        rejects, _lost, _k, devs, drifts, pr, ir = validate_trace(pid, s["div_trace"], c["MaxH"], ps, f"{pid}_{name}_div")
+        rejects, _lost, _k, devs, drifts, pr, ir = validate_trace(pid, s["div_trace"], c["MaxH"], ps, f"{pid}_{name}_div", knob=c.get("SyncKnob", False))
         ck.add_tlc(pr, f"trace_prop_{name}")
         ck.add_tlc(ir, f"trace_impl_{name}")
         runs = {}
@@ -380,7 +424,7 @@ def judge_kind(ck, fam, pid, name, what, count, predicted, c=None, fe="std", hos
         h = fam.hits.setdefault("ErrKind", {"n": 0, "witness": what, "what": set()})
         h["n"] += count
         h.setdefault("what", set()).add(what)
-        h["witness"] = "; ".join(sorted(h["what"]))
+        h["witness"] = "; ".join(sorted(h["what"]))[:300]
     else:
         ck.violation({"kind": "errkind", "property": pid, "config": name, "what": what, "count": count,
                       "why": "error kind differs from std::fs and is " +
@@ -394,7 +438,7 @@ def run_random(ck, fam, pid, rc, w, idx, first):
     with open(tpath) as f:
         head = json.loads(f.readline())
     ps = head["ps"]
-    rejects, lost, kinds, devs, drifts, pr, ir = validate_trace(pid, tpath, rc["maxh"], ps, f"{pid}_rnd{idx}")
+    rejects, lost, kinds, devs, drifts, pr, ir = validate_trace(pid, tpath, rc["maxh"], ps, f"{pid}_rnd{idx}", knob=rc.get("knob", 0) == 1)
     ck.add_tlc(pr, f"trace_prop_rnd{idx}")
     ck.add_tlc(ir, f"trace_impl_rnd{idx}")
     ck.traces += rc["runs"]
@@ -416,16 +460,17 @@ def run_random(ck, fam, pid, rc, w, idx, first):
     def payload(run, i):
         return {"kind": "random", "property": pid, "args": args, "cfg": rc, "run": run}
 
-    judge_runs(ck, fam, pid, f"random_{idx}", rejects, devs, drifts, lambda r, i: f"random run {r} call {i}", payload)
-    return tpath, ps
+    judge_runs(ck, fam, pid, f"random_{idx}", rejects, devs, drifts, lambda r, i: None, payload)
+    return tpath, ps, {r for (r, _i) in list(rejects) + list(lost)}
 
 
-def corrupt_trace(src, dst):
-    """Binding demonstration: flip one byte of the first non-empty file content read back."""
+def corrupt_trace(src, dst, unjudged):
+    """Binding demonstration: flip one byte of the first non-empty file content read back (in a run that the
+    reference accepts as recorded)."""
     lines = open(src).read().splitlines()
     for n, line in enumerate(lines):
         e = json.loads(line)
-        if e["ev"] != "op" or not e["view"]:
+        if e["ev"] != "op" or not e["view"] or e["run"] in unjudged:
             continue
         for ent in e["view"]:
             if ent["k"] == "file" and ent["d"]:
@@ -436,12 +481,13 @@ def corrupt_trace(src, dst):
     return None
 
 
-def corrupt_crash(src, dst):
-    """Binding demonstration (C07): make a file that survived a crash disappear from the recorded image."""
+def corrupt_crash(src, dst, unjudged):
+    """Binding demonstration (C07): make a file that survived a crash disappear from the recorded image
+    (in a run that the reference judges up to that crash)."""
     lines = open(src).read().splitlines()
     for n, line in enumerate(lines):
         e = json.loads(line)
-        if e["ev"] != "op" or e["op"]["k"] != "crash":
+        if e["ev"] != "op" or e["op"]["k"] != "crash" or e["run"] in unjudged:
             continue
         for ent in e["res"]["v"]:
             if ent["k"] == "file":
@@ -457,8 +503,9 @@ def run(pid, tier, seed, replay=None):
     ck.assumptions = [
         "paths: a fixed universe of 13 names in directories nested up to depth 3; bytes from a 2-3 letter alphabet; "
         "one or two open handles; symlinks, hard links, permissions, timestamps are outside the property",
-        "all fault probabilities 0, io_latency / page cache / capacity off; sync_probability and block_size "
-        "(permitted sets under the knobs) are not exercised",
+        "all fault probabilities 0, io_latency / page cache / capacity off; C07 exercises sync_probability by forcing the "
+        "per-call coin (Fs::sync_probability = 1.0 / 0.0 before the call), which covers every outcome of any p; "
+        "block_size (torn writes) is not exercised",
         "open flag combinations restricted to those std::fs::OpenOptions accepts; write_at on append handles "
         "(Linux appends regardless of the offset) and set_len on read-only handles are not issued",
         "crash = drop every File, then Fs::crash() (what Sim::crash does for one host); directory renames are not "
@@ -474,9 +521,11 @@ def run(pid, tier, seed, replay=None):
 
     # 1. design level ------------------------------------------------------
     for name, c in mc_configs(pid, tier):
-        cfg = cfg_text("Spec", c, invariants=["RefWellformed", "ImplInv", "DivergenceExplained"], properties=["SyncInert"],
-                       view="MCView")
-        r = vlib.run_tlc(SUB, "FsImpl", cfg, f"{pid}_{name}", workers=10, timeout=1500 if tier == "thorough" else 300, heap="12g")
+        # FsGen with EmitMode "kind" is FsImpl plus one short line per transition: the per-action counts of the
+        # vacuity guard are measured on the exhaustive run itself (TLC's -coverage exhausts the heap on this spec)
+        cfg = cfg_text("GenSpec", dict(c, EmitMode="kind"), invariants=["RefWellformed", "ImplInv", "DivergenceExplained"],
+                       properties=["SyncInert"], view="MCView")
+        r = vlib.run_tlc(SUB, "FsGen", cfg, f"{pid}_{name}", workers=10, timeout=1500 if tier == "thorough" else 300, heap="12g")
         ck.add_tlc(r, name, exhaustive=True)
         log(f"[{pid}] {name}: {r.distinct} distinct states, {r.generated} generated, depth {r.depth}, {r.wall:.0f}s")
         if r.violated or r.error or r.timed_out:
@@ -484,17 +533,17 @@ def run(pid, tier, seed, replay=None):
             raise MachineryError(f"design-level check {name} did not pass ({r.violated or r.error or 'timeout'}): FsImpl leaves "
                                  f"FsRef at a point that no Dev_* predicate of a recorded finding explains; repair the spec or "
                                  f"confirm the defect on the code and record it")
-        # vacuity guard: every operation kind of the alphabet is taken (TLC's coverage is ~10x slower on this
-        # spec, so the per-action counts are measured on the same constants with a shorter history)
-        cv = vlib.run_tlc(SUB, "FsImpl", cfg_text("Spec", dict(c, MaxLen=min(c["MaxLen"], 3)), view="MCView"),
-                          f"{pid}_{name}_cov", workers=4, timeout=300, coverage=True, heap="4g")
-        if cv.error or cv.timed_out:
-            raise MachineryError(f"coverage run of {name} failed: {cv.error or 'timeout'}")
-        for k, v in cv.coverage.items():
-            ck.cov[f"{name}:{k}"] = v
-        missing = [k for k in c["OpKinds"] if cv.coverage.get(STEP_OF[k], 0) == 0]
+        taken = collections.Counter(re.findall(r'^<<"TAKEN", "(\w+)", "\w*">>', r.stdout, re.M))
+        divs = collections.Counter(re.findall(r'^<<"TAKEN", "\w+", "(\w+)">>', r.stdout, re.M))
+        r.stdout = ""
+        for k, v in taken.items():
+            ck.cov[f"{name}:{STEP_OF[k]}"] = v
+        ck.cov[f"{name}:divergent_transitions"] = sum(divs.values())
+        missing = [k for k in c["OpKinds"] if taken[k] == 0]
         if missing:
             raise MachineryError(f"vacuity: operation kinds never taken in {name}: {missing}")
+        if pid == "C07" and taken["crash"] == 0:
+            raise MachineryError(f"vacuity: no crash in {name}")
 
     # 2. spec -> code -------------------------------------------------------
     for name, c, emit, view, fes in gen_configs(pid, tier):
@@ -514,16 +563,16 @@ def run(pid, tier, seed, replay=None):
     # 3. code -> spec -------------------------------------------------------
     first_trace = None
     for i, rc in enumerate(random_configs(pid, tier, seed)):
-        tpath, ps = run_random(ck, fam, pid, rc, w, i, first_trace is None)
+        tpath, ps, unjudged = run_random(ck, fam, pid, rc, w, i, first_trace is None)
         if first_trace is None:
-            first_trace = (tpath, ps, rc)
+            first_trace = (tpath, ps, rc, unjudged)
 
     # binding demonstration: a corrupted observation must be rejected by the PropSpec -----------------
-    tpath, ps, rc = first_trace
+    tpath, ps, rc, unjudged = first_trace
     bad = os.path.join(w, "random_0_corrupt.ndjson")
-    where = corrupt_trace(tpath, bad) if pid == "C10" else corrupt_crash(tpath, bad)
+    where = corrupt_trace(tpath, bad, unjudged) if pid == "C10" else corrupt_crash(tpath, bad, unjudged)
     if where:
-        rejects, _l, _k, devs, drifts, pr, ir = validate_trace(pid, bad, rc["maxh"], ps, f"{pid}_bind")
+        rejects, _l, _k, devs, drifts, pr, ir = validate_trace(pid, bad, rc["maxh"], ps, f"{pid}_bind", knob=rc.get("knob", 0) == 1)
         rejected = where in rejects and where in drifts
         ck.extra["binding_demo"] = {"corruption": "one byte of a file read back after a call changed" if pid == "C10"
                                     else "a file that survived a crash removed from the recorded image",
